@@ -156,7 +156,7 @@ const double TEND = 1.0, TMID = 0.4, ACC = 1e-5, HFIX = 0.02;
 // bound on |integral error| / (accuracy * scale) per error-controlled integrator: >= 100x the worst ratio measured on the unchanged tree
 // requested accuracy per integrator (first-order methods would need thousands of steps at 1e-5)
 const double ACCI[] = {1e-2, 1e-3, 1e-4, 1e-5, 1e-5, 1e-5, 1e-2, 1e-3, 1e-5};
-const double INTBOUND[] = {1e9, 1e9, 1e9, 1e9, 1e9, 0, 1e9, 1e9, 1e9};
+const double INTBOUND[] = {500, 50, 5, 5000, 150, 0, 400, 500, 300};
 
 std::unique_ptr<Integrator> makeInteg(int k, const System& sys) {
     switch (k) {
@@ -513,7 +513,11 @@ int main(int argc, char** argv) {
     for (int i = 0; i < I_N; ++i) allI.push_back(i);
     for (int i = 0; i < G_N; ++i) allG.push_back(i);
     for (int i = 0; i < H_N; ++i) allH.push_back(i);
-    if (thorough) { addCases(0, treesR, 2, allH, allI, allG); addCases(1, treesV, 2, allH, allI, allG); }
+    if (thorough) {
+        addCases(0, treesR, 1, allH, allI, allG);
+        addCases(0, treesR, 2, allH, allI, {G_NONE, G_IRREG});
+        addCases(1, treesV, 2, allH, allI, {G_NONE, G_IRREG});
+    }
     else {
         addCases(0, treesR, 1, allH, allI, {G_NONE, G_IRREG});
         addCases(0, treesR, 1, allH, {I_RKM, I_CPODES}, {G_COARSE, G_FINE});
@@ -537,6 +541,10 @@ int main(int argc, char** argv) {
         const Tree& tr = (c.vec ? treesV : treesR)[c.tree];
         const bool analyticDiff = c.wrap == W_DIFF && tr.depth == 0;
         const bool approxLow = (c.wrap == W_DIFFA || (c.wrap == W_DIFF && tr.depth > 0)) && !tr.hasTime && !tr.hasSin;
+        if ((analyticDiff || approxLow) && c.grid != G_NONE && c.grid != G_IRREG) {
+            // these cases end inside Integrator::initialize() whatever the report grid is: simulate them for two grids only
+            run.count("isolated-class-cases-skipped-for-other-grids"); run.evaluation(verif::hashStr(where), false); return;
+        }
         if (analyticDiff || approxLow) {
             // Run in a child process because the code under test may abort:
             //  * operand supplies its own derivative: Differentiate::Implementation::realizeMeasureAccelerationVirtual() touches its
